@@ -38,7 +38,12 @@ static std::string observeParser(Parser& p, const std::string& text) {
   o += num(ok) + errorsOf(p.Errors());
   if (ok) {
     o += AST2String::Apply(p.AST());
-    o += "|" + Generator::FromTree(p.AST(), Syntax::MATH) + "|" + Generator::FromTree(p.AST(), Syntax::ASCII);
+    const std::string math = Generator::FromTree(p.AST(), Syntax::MATH), ascii = Generator::FromTree(p.AST(), Syntax::ASCII);
+    o += "|" + math + "|" + ascii;
+    // the library's shared (static) generators must not carry anything over between calls or syntaxes: whatever was
+    // generated before, the text for THIS tree must parse back in the syntax it was generated for
+    { Parser back; sym_assert(back.Parse(math, Syntax::MATH) && AST2String::Apply(back.AST()) == AST2String::Apply(p.AST()), "generated-math-text-parses-back"); }
+    { Parser back; sym_assert(back.Parse(ascii, Syntax::ASCII), "generated-ascii-text-parses-back"); }
   }
   return o;
 }
